@@ -12,6 +12,8 @@ ap.add_argument("k")
 ap.add_argument("--props", default="")
 ap.add_argument("--skip-verify", action="store_true")
 ap.add_argument("--patch", default=None)
+ap.add_argument("--cache", default="/tmp/seed/vcache")
+ap.add_argument("--tag", default=None, help="name used for the result and evidence files (default: basename of the worktree)")
 ap.add_argument("--verif", default=None, help="directory of the /verif snapshot whose checks are run")
 a = ap.parse_args()
 wt = os.path.abspath(a.wt)
@@ -19,7 +21,8 @@ out = os.path.join(wt, "OUT", a.k)
 patch = a.patch or os.path.join(out, "patch.diff")
 VERIF = a.verif or os.path.dirname(os.path.dirname(os.path.abspath(__file__)))
 res = {"worktree": wt, "k": a.k, "steps": {}}
-prev_path = "/tmp/seed/results/%s_%s.json" % (os.path.basename(wt), a.k)
+TAG = a.tag or os.path.basename(wt)
+prev_path = "/tmp/seed/results/%s_%s.json" % (TAG, a.k)
 if a.skip_verify and os.path.exists(prev_path):
     try:
         res["steps"] = json.load(open(prev_path))["steps"]
@@ -58,7 +61,7 @@ try:
         res["steps"]["tests"] = {"passed": passed, "failed": failed}
         rc, o, t = sh("bash %s %s" % (os.path.join(out, "demo", "run.sh"), wt), timeout=1800)
         res["steps"]["demo_patched"] = {"rc": rc, "s": t, "tail": o[-600:]}
-    env = dict(os.environ, VERIF_REPO=wt, VERIF_CACHE="/tmp/seed/vcache", VERIF_EVIDENCE="/tmp/seed/results/ev_%s_%s" % (os.path.basename(wt), a.k))
+    env = dict(os.environ, VERIF_REPO=wt, VERIF_CACHE=a.cache, VERIF_EVIDENCE="/tmp/seed/results/ev_%s_%s" % (TAG, a.k))
     props = [p for p in a.props.split(",") if p] or [c["property_id"] for c in json.load(open(os.path.join(VERIF, "MANIFEST.json")))["checks"]]
     res["checks"] = {}
     for p in props:
